@@ -5,7 +5,7 @@ operation path; malloc'd texts, wrapped strndup/free, injected allocation failur
 recorded operation is validated by TLC against ScpiErrQueue (TVErrQueue). C18: recorded SYST:ERR? responses
 are validated against ErrResponse (TVErrResp)."""
 import json, os, shutil, concurrent.futures
-import lib
+import lib, composition
 
 WRAP = ['-Wl,--wrap=strndup,--wrap=free']
 
@@ -95,6 +95,7 @@ def run_c10(tier):
             info = driver(rep, exe, ['walk', lib.seed() * 31 + c, steps if cfg == 'default' else steps // 4, c, w + '/x.ndjson'], 'walk %s cap %d' % (cfg, c))
             if info is not None:
                 validate(rep, 'TVErrQueue', w + '/x.ndjson', 'walk-%s-cap%d' % (cfg, c), nt_c10)
+    composition.validate(rep, 'C10', tier)
     rep.cov['exhaustive'] = True
     shutil.rmtree(w, ignore_errors=True)
     return rep.finish()
